@@ -35,7 +35,9 @@ MANIFEST = dict(
           "invariant evaluated in every trace state, by comparing tables and goroutines left after quiescence, by forcing "
           "TLC-enumerated cancel/admission orders on the real goroutines, and by parsing+executing every token sequence "
           "TLC enumerates from spec/Grammar.tla twice."),
-    note=("Synchronous (HTTP) path is bound; the websocket path is modelled (async config) but not driven. "
+    note=("Synchronous (HTTP) path: trace validation + forced schedules; websocket path: modelled (async config) and driven "
+          "end to end (cancel message, abrupt disconnect, slow reader) with table / goroutine checks, but its traces are not "
+          "validated against the spec. "
           "'All byte strings' is covered only at token level (sequences of <= 4-5 tokens from ~40 tokens over four query "
           "languages); the Elasticsearch query-DSL JSON space and byte-level fuzzing are not covered. Events logged outside "
           "their lock are used as causes only."),
@@ -259,12 +261,14 @@ def run(chk):
     # ---------------- (B) forced schedules, (G) grammar: separate modules
     import c17_sched
     import c17_grammar
+    import c17_async
     c17_sched.run(chk, binary)
+    c17_async.run(chk, binary)
     c17_grammar.run(chk, binary)
 
     chk.assumptions += [
         "hook events logged under arqMapLock/waitingQueriesLock are totally ordered with the state they report",
-        "only the synchronous path is executed; the async (websocket) path is model-checked only",
+        "trace validation covers the synchronous path; the websocket path is executed and checked for answers, tables and goroutines",
         "goroutine leak detection compares goroutine signatures before/after each run (query/pipesearch/segment frames only)",
     ]
     chk.describe(rule="stress runs: seeded plans of %d concurrent queries (cancel at 0-40 ms, second cancel, executor delays up to "
